@@ -6,7 +6,14 @@ states).  S->I: spec/gen/SetupGen.tla prints every behaviour of N commands with 
 each command; each is replayed on the REAL release binary inside a private mount namespace with overlayfs over
 /etc /usr /var ... and a stand-in systemctl (harness/sys), and the projected file system is compared after every
 command.  I->S: everything observed is validated by TLC against the property-level trace spec
-spec/trace/SetupTrace.tla; a divergence from the model is a violation only if that spec rejects it."""
+spec/trace/SetupTrace.tla; a divergence from the model is a violation only if that spec rejects it.
+
+Environment dimension "same file system" (Setup.tla: SameFs): every behaviour is replayed in two layouts of the
+private mount namespace (harness/sys/ns_enter.sh): "separate" = the tool's folder, /etc and /usr are three mounts
+(link(2)/rename(2) between them fail with EXDEV) and "samefs" = chroot into ONE overlay of the whole root whose
+upper layer is a private tmpfs, the tool's folder being /var/lib/waagent/verif-c17-setup (link(2) into /etc/azure,
+/usr/sbin, /usr/lib/azure-proxy-agent, /usr/lib/systemd/system succeeds; a probe proves it before any replay).
+The expected contents are the same in both (Setup.tla: BackupIsSeparate)."""
 import hashlib
 import json
 import os
@@ -25,6 +32,8 @@ NS_ENTER = os.path.join(SYSDIR, "ns_enter.sh")
 REPLAY = os.path.join(SYSDIR, "replay.py")
 SCRATCH = os.path.join(util.BUILD, "c17", "run-%d" % os.getpid())
 LOCS = ("exe", "cfg", "ebpf", "unit")
+LAYOUTS = ("separate", "samefs")
+SAMEFS_SUFFIX = "@samefs"
 ACTIONS = ["Begin", "DoCall", "DoCheckBackup", "DoProbe", "DoCopyIn", "DoCopyUnit", "DoBackupFile",
            "DoRemoveUnit", "DoDeleteFile", "DoDeleteBackup"]
 # command-line spellings tried for "restore without backup deletion" (args.rs: positional `delete_backup: bool`)
@@ -36,6 +45,12 @@ ASSUME = [
     "TLC 1.8 and the CommunityModules Json/IOUtils are correct",
     "the kernel's overlayfs and mount namespaces isolate the run: what the tool does to /etc, /usr, /var, /tmp, /root, "
     "/home, /opt, /srv, /mnt, /media lands in the upper layers under .build/ which the driver lists in full after every command",
+    "file-system layout is a two-valued environment dimension: tool folder on another mount than /etc and /usr (link and "
+    "rename into the system directories fail with EXDEV), and tool folder, /etc/azure, /usr/sbin, /usr/lib/azure-proxy-agent, "
+    "/usr/lib/systemd/system on ONE mount (an overlayfs of the whole root with a tmpfs upper layer, entered with chroot; "
+    "link(2) succeeds, proven by a probe before every worker's replays); mixed layouts (/etc and /usr on different file "
+    "systems, tool folder on one of them) are not run; overlayfs stands for the VM's root file system as far as "
+    "link/rename/O_TRUNC semantics of files created inside the sandbox go",
     "systemctl is replaced by a stand-in that always succeeds and records its argv plus the hashes of the four system "
     "locations at call time; failures of the real service manager are out of scope",
     "the agent executable is a stand-in script answering --version (the only thing the tool runs it for); file contents "
@@ -75,19 +90,26 @@ def build_setup(release=True, timeout=1800):
     return exe
 
 
-def start_worker(name, setup_bin, behaviours, seed, argv=None):
+LINK_PROBES = {}      # layout -> what link(2) from Backup/Package into each system directory gave (last worker)
+
+
+def start_worker(name, setup_bin, behaviours, seed, argv=None, layout="separate"):
+    if layout not in LAYOUTS:
+        raise util.ToolError("unknown layout %r" % layout)
     S = os.path.join(SCRATCH, name)
     shutil.rmtree(S, ignore_errors=True)
     os.makedirs(S)
-    job = {"scratch": S, "setup_bin": setup_bin, "seed": seed, "behaviours": behaviours, "argv": argv or {}}
+    job = {"scratch": S, "setup_bin": setup_bin, "seed": seed, "behaviours": behaviours, "argv": argv or {},
+           "layout": layout}
     jp, op = os.path.join(S, "job.json"), os.path.join(S, "out.ndjson")
     with open(jp, "w") as f:
         json.dump(job, f)
     env = dict(os.environ)
     env["PYTHONDONTWRITEBYTECODE"] = "1"
+    env["VERIF_C17_LAYOUT"] = layout
     p = subprocess.Popen([NS_ENTER, S, sys.executable, REPLAY, jp, op], stdout=subprocess.PIPE, stderr=subprocess.STDOUT,
                          env=env, text=True, errors="replace")
-    return {"S": S, "p": p, "out": op, "n": len(behaviours)}
+    return {"S": S, "p": p, "out": op, "n": len(behaviours), "layout": layout}
 
 
 def finish_worker(w, timeout):
@@ -101,6 +123,15 @@ def finish_worker(w, timeout):
     recs = util.read_ndjson(w["out"])
     if len(recs) != w["n"]:
         raise util.ToolError("replay worker returned %d of %d behaviours (%s)" % (len(recs), w["n"], w["S"]))
+    # vacuity guard of the layout dimension: the driver's link probe (it refuses to replay otherwise; checked again here)
+    try:
+        lp = util.read_json(os.path.join(w["S"], "layout.json"))
+    except (OSError, ValueError) as ex:
+        raise util.ToolError("replay worker left no layout probe (%s): %s" % (w["S"], ex))
+    want = "linked" if w["layout"] == "samefs" else "EXDEV"
+    if lp.get("layout") != w["layout"] or len(lp.get("link_into", {})) != 4 or any(v != want for v in lp["link_into"].values()):
+        raise util.ToolError("layout %s is not what it claims: link probe %r" % (w["layout"], lp))
+    LINK_PROBES[w["layout"]] = {"setup_folder": lp["setup_folder"], "link_from_Backup/Package_into": lp["link_into"]}
     shutil.rmtree(os.path.join(w["S"], "ov"), ignore_errors=True)
     return recs
 
@@ -137,13 +168,20 @@ def check_timeout_rate(c):
                              % (k, n, json.dumps(TIMEOUTS["timed_out_once"][:3])[:1500]))
 
 
-def replay_many(setup_bin, behaviours, seed, workers, argv=None, timeout=3000, tag="w"):
-    """behaviours: [{id, init, cmds, trace?}] -> {id: observation record}"""
+def replay_start(setup_bin, behaviours, seed, workers, argv=None, tag="w", layout="separate"):
     if not behaviours:
-        return {}
+        return []
     workers = max(1, min(workers, len(behaviours)))
     chunks = [behaviours[k::workers] for k in range(workers)]
-    ws = [start_worker("%s%d" % (tag, k), setup_bin, ch, seed, argv) for k, ch in enumerate(chunks)]
+    return [start_worker("%s%d" % (tag, k), setup_bin, ch, seed, argv, layout) for k, ch in enumerate(chunks)]
+
+
+def replay_many(setup_bin, behaviours, seed, workers, argv=None, timeout=3000, tag="w", layout="separate"):
+    """behaviours: [{id, init, cmds, trace?}] -> {id: observation record}"""
+    return replay_finish(replay_start(setup_bin, behaviours, seed, workers, argv, tag, layout), timeout)
+
+
+def replay_finish(ws, timeout=3000):
     out = {}
     err = None
     for w in ws:
@@ -190,6 +228,10 @@ def compare(beh, obs):
             diffs.append((i, "rest", "r0", o["rest"]))
         if o.get("bak_extra"):
             diffs.append((i, "bak_extra", [], o["bak_extra"]))
+        if o.get("bak_is_live_inode"):
+            # Setup.tla BackupIsSeparate: a backup file that IS the live file (hard link).  Like every divergence it
+            # is decided by the property on the whole observed behaviour, not by itself
+            diffs.append((i, "bak-shares-inode", [], o["bak_is_live_inode"]))
         if [c["v"] for c in o["calls"]] != [c["v"] for c in e["calls"]]:
             diffs.append((i, "calls", [c["v"] for c in e["calls"]], [c["v"] for c in o["calls"]]))
         elif [c["s"] for c in o["calls"]] != [c["s"] for c in e["calls"]]:
@@ -264,7 +306,8 @@ class Judge:
     def run_once(self, beh, traced=True):
         self.n += 1
         b = {"id": beh["id"], "init": beh["init"], "cmds": beh["cmds"], "trace": traced}
-        obs = replay_many(self.bin, [b], self.c.seed, 1, self.argv, timeout=600, tag="j")[beh["id"]]
+        obs = replay_many(self.bin, [b], self.c.seed, 1, self.argv, timeout=600, tag="j",
+                          layout=beh.get("layout", "separate"))[beh["id"]]
         ok, why, _ = validate_trace(self.c, "SetupTrace", "SetupTrace.cfg", rows_of(beh, obs),
                                     "c17_judge%d" % self.n, count=0)
         return ok, why, obs
@@ -285,7 +328,8 @@ def report(c, beh, obs, why, diffs, what):
         if s["c"] == "restoreF" and is_arg_rejection(s):
             bad = s
             break
-    case = {"init": beh["init"], "cmds": beh["cmds"], "observed": slim(obs), "expected": beh.get("steps"),
+    layout = beh.get("layout", "separate")
+    case = {"init": beh["init"], "cmds": beh["cmds"], "layout": layout, "observed": slim(obs), "expected": beh.get("steps"),
             "divergence": [list(d) for d in diffs[:5]], "rejected_by": why}
     if bad is not None:
         sig = {"kind": "restore-delete-backup-arg"}
@@ -298,6 +342,13 @@ def report(c, beh, obs, why, diffs, what):
         sig = {"kind": "property", "broken": why, "cmd": obs["steps"][min(d[0], len(obs["steps"]) - 1)]["c"], "component": d[1]}
         msg = "%s: %s on %s from %s; first divergence from the model at command %d (%s): expected %r, got %r" % (
             what, why, beh["cmds"], {k: beh["init"][k]["exe"] for k in ("sys", "bak", "pkg")}, d[0] + 1, d[1], d[2], d[3])
+        if layout != "separate":
+            sig["layout"] = layout
+            last = obs["steps"][-1]
+            msg += ("; layout %s (tool folder on the file system of the system locations); after the last command "
+                    "sys=%r bak=%r%s" % (layout, last["sys"], last["bak"],
+                                         ", backup file IS the live inode for %s" % last["bak_is_live_inode"]
+                                         if last.get("bak_is_live_inode") else ""))
     c.violation(msg, sig, case)
     return sig
 
@@ -374,8 +425,31 @@ def _run(c):
             raise util.ToolError("%s not available" % tool)
     setup_bin = build_setup(release=True)
 
-    # 1. the design: complete reachable graph (sequences of every length from the six initial states)
-    c.tlc("Setup", "Setup.cfg", workers=8, required_actions=ACTIONS, timeout=300)
+    # 1. the design: complete reachable graph (sequences of every length from the six initial states), for both
+    #    values of the environment constant SameFs: the graphs must be the same (the design never links), and the
+    #    design variant "backup by hard link, overwrite in place" must be rejected when SameFs (anti-vacuity of the
+    #    dimension) and indistinguishable from the design when every link fails with EXDEV
+    r_sep = c.tlc("Setup", "Setup.cfg", workers=8, required_actions=ACTIONS, timeout=300)
+    r_same = c.tlc("Setup", "Setup_samefs.cfg", workers=8, required_actions=ACTIONS, timeout=300)
+    for r, cfg in ((r_sep, "Setup.cfg"), (r_same, "Setup_samefs.cfg")):
+        if not r.ok:
+            raise tlcmod.TlcError("%s: the design does not satisfy its properties: %s" % (cfg, r.invariant_violated or r.error_lines[:3]))
+    if (r_sep.distinct, r_sep.generated) != (r_same.distinct, r_same.generated):     # (depth varies with 8 workers)
+        raise tlcmod.TlcError("Setup.tla: SameFs changes the design's graph (%s vs %s)" % (
+            (r_sep.distinct, r_sep.generated), (r_same.distinct, r_same.generated)))
+    r_lo = c.tlc("Setup", "Setup_linkbackup_otherfs.cfg", workers=8, timeout=300)
+    if not r_lo.ok:
+        raise tlcmod.TlcError("Setup_linkbackup_otherfs.cfg: the link variant must equal the design when link(2) fails: %s"
+                              % (r_lo.invariant_violated or r_lo.error_lines[:3]))
+    r_ls = c.tlc("Setup", "Setup_linkbackup.cfg", workers=8, coverage=False, expect_ok=False, timeout=300)
+    if r_ls.invariant_violated != "RoundTrip":
+        raise tlcmod.TlcError("Setup_linkbackup.cfg: the design variant 'backup by hard link + in-place overwrite' on one "
+                              "file system was expected to violate RoundTrip (anti-vacuity of SameFs); got %s"
+                              % (r_ls.invariant_violated or r_ls.error_lines[:2] or "no violation"))
+    c.extra["design_variants"] = [
+        {"cfg": "Setup_samefs.cfg", "SameFs": True, "LinkBackup": False, "result": "all properties hold; same graph as Setup.cfg"},
+        {"cfg": "Setup_linkbackup_otherfs.cfg", "SameFs": False, "LinkBackup": True, "result": "all properties hold (every link fails, copies as the design)"},
+        {"cfg": "Setup_linkbackup.cfg", "SameFs": True, "LinkBackup": True, "result": "rejected: RoundTrip", "expected_violation": "RoundTrip"}]
 
     # 2. how is "restore without backup deletion" spelled?
     spelling, table = probe_restore_spelling(c, setup_bin)
@@ -410,44 +484,61 @@ def _run(c):
     # 3a. the statement's own scenario, first and traced: a version installed; backup; install another version;
     #     restore with and without backup deletion
     reported = set()
-    for third in ("restoreT", "restoreF"):
+    for third, layout in [(t, lay) for lay in LAYOUTS for t in ("restoreT", "restoreF")]:
         cand = [b for b in behs if b["cmds"][:3] == ["backup", "install", third] and b["init"]["sys"]["exe"] == "a"
                 and b["init"]["pkg"]["exe"] == "p" and b["init"]["bak"]["exe"] == "absent"]
         if not cand:
             raise util.ToolError("generator did not produce the statement's scenario")
         b = dict(cand[0])
-        b["id"] = "stmt-" + third
+        b["id"] = "stmt-" + third + ("" if layout == "separate" else SAMEFS_SUFFIX)
+        b["layout"] = layout
         b["cmds"], b["steps"] = b["cmds"][:3], b["steps"][:3]
-        ok, why, obs = judge.decide(b, "statement scenario")
+        ok, why, obs = judge.decide(b, "statement scenario (%s)" % layout)
         diffs = compare(b, obs)
-        c.count(json.dumps([init_key(b), b["cmds"]]))
+        c.count(json.dumps([init_key(b), b["cmds"], layout]))
         if ok:
             c.traces_validated += 1
-            c.sample({"init": {k: b["init"][k]["exe"] for k in ("sys", "bak", "pkg")}, "cmds": b["cmds"],
+            c.sample({"init": {k: b["init"][k]["exe"] for k in ("sys", "bak", "pkg")}, "cmds": b["cmds"], "layout": layout,
                       "observed": [{"c": s["c"], "argv": s["argv"], "exit": s["exit"], "sys": s["sys"], "bak": s["bak"],
                                     "calls": [cl["v"] for cl in s["calls"]], "strace": s.get("strace")} for s in obs["steps"]]})
             if diffs:
-                c.extra.setdefault("model_drift", []).append({"cmds": b["cmds"], "diff": [list(d) for d in diffs[:3]]})
+                c.extra.setdefault("model_drift", []).append({"cmds": b["cmds"], "layout": layout, "diff": [list(d) for d in diffs[:3]]})
         else:
             sig = report(c, b, obs, why, diffs, "statement scenario")
             reported.add(json.dumps(sig, sort_keys=True))
 
-    # 3b. S->I over the chosen behaviours
+    # 3b. S->I over the chosen behaviours, every one of them in both layouts (the two sets of workers run side by side)
     jobs = [{"id": b["id"], "init": b["init"], "cmds": b["cmds"], "trace": b["id"] in traced_ids} for b in chosen]
     rnd.shuffle(jobs)
+    jobs_same = [dict(j, id=j["id"] + SAMEFS_SUFFIX) for j in jobs]
+    for b in chosen:
+        by_id[b["id"] + SAMEFS_SUFFIX] = dict(b, id=b["id"] + SAMEFS_SUFFIX, layout="samefs")
     t = util.Timer()
-    observed = replay_many(setup_bin, jobs, c.seed, 12 if thorough else 8, argv, timeout=5400 if thorough else 900)
-    util.log("replayed %d behaviours in %ss" % (len(observed), t.s()))
+    nw = 12 if thorough else 8
+    ws_sep = replay_start(setup_bin, jobs, c.seed, nw, argv, tag="w", layout="separate")
+    ws_same = replay_start(setup_bin, jobs_same, c.seed, nw, argv, tag="s", layout="samefs")
+    observed, err = {}, None
+    for ws in (ws_sep, ws_same):
+        try:
+            observed.update(replay_finish(ws, timeout=5400 if thorough else 900))
+        except util.ToolError as ex:
+            err = err or ex
+    if err:
+        raise err
+    if len(observed) != 2 * len(chosen):
+        raise util.ToolError("replayed %d of %d behaviours" % (len(observed), 2 * len(chosen)))
+    util.log("replayed %d behaviours (%d in each layout) in %ss" % (len(observed), len(chosen), t.s()))
+    c.extra["layouts"] = {lay: dict(LINK_PROBES.get(lay, {}), behaviours=len(chosen)) for lay in LAYOUTS}
     ncmds = 0
     mismatching = {}
     for bid, obs in observed.items():
         b = by_id[bid]
         ncmds += len(obs["steps"])
-        c.count(json.dumps([init_key(b), b["cmds"]]))
+        c.count(json.dumps([init_key(b), b["cmds"]] + ([b["layout"]] if b.get("layout", "separate") != "separate" else [])))
         diffs = compare(b, obs)
         if diffs:
             d = diffs[0]
-            mismatching.setdefault((obs["steps"][d[0]]["c"], d[1]), []).append((b, obs, diffs))
+            mismatching.setdefault((obs["steps"][d[0]]["c"], d[1], b.get("layout", "separate")), []).append((b, obs, diffs))
     c.count(n=ncmds)
     c.extra["replayed_behaviours"] = len(observed)
     c.extra["replayed_commands"] = ncmds
@@ -457,7 +548,7 @@ def _run(c):
     # outside the statement (recorded, modelled and compared, not judged): a backup taken while the unit file was
     # not installed (after `uninstall service`) makes a later restore copy three files, fail on the missing unit
     # (exit 1) and leave the service stopped
-    part = [(b, observed[b["id"]]) for b in chosen if any(s["res"] == "fail" for s in b["steps"])]
+    part = [(b, observed[b["id"]]) for b in chosen if any(s["res"] == "fail" for s in b["steps"])]      # separate layout
     if part:
         b, o = min(part, key=lambda x: [s["res"] for s in x[0]["steps"]].index("fail"))
         k = [s["res"] for s in b["steps"]].index("fail")
@@ -485,7 +576,7 @@ def _run(c):
                 r = rows_of(b2, o2)
                 owner += [(idx, j) for j in range(len(r))]
                 rows += r
-            ok, why, res = validate_trace(c, "SetupTrace", "SetupTrace.cfg", rows, "c17_div_%s_%s" % key, count=0,
+            ok, why, res = validate_trace(c, "SetupTrace", "SetupTrace.cfg", rows, "c17_div_%s_%s_%s" % key, count=0,
                                           timeout=1200, heap="6g")
             if ok:
                 break
@@ -496,7 +587,7 @@ def _run(c):
             b2, o2, d2 = remaining[idx]
             short = dict(b2)
             short["cmds"], short["steps"] = b2["cmds"][:j], b2["steps"][:j]
-            ok3, why3, obs3 = judge.decide(short, "divergence %s/%s" % key)
+            ok3, why3, obs3 = judge.decide(short, "divergence %s/%s (%s)" % key)
             if ok3:
                 first = o2["steps"][j - 1]
                 util.write_json(os.path.join(util.BUILD, "c17_unreproduced.json"),
@@ -514,7 +605,7 @@ def _run(c):
         if rejected == 0:
             c.traces_validated += len(lst)
             b, obs, diffs = lst[0]
-            drift.append({"cmd": key[0], "component": key[1], "behaviours": len(lst),
+            drift.append({"cmd": key[0], "component": key[1], "layout": key[2], "behaviours": len(lst),
                           "example": b["cmds"][:diffs[0][0] + 1], "expected": diffs[0][2], "got": diffs[0][3]})
     if drift:
         c.extra["model_drift"] = c.extra.get("model_drift", []) + drift
@@ -534,7 +625,8 @@ def _run(c):
             raise util.ToolError("model-conformant observations rejected by SetupTrace (%s): Setup.tla and SetupTrace.tla disagree" % why)
 
     # 5. the trace spec binds: a corrupted recording of a real round trip must be rejected
-    good = [b for b in chosen if b["id"] not in bad_ids and any(s["chk"] for s in b["steps"])]
+    good = [b for b in chosen if b["id"] not in bad_ids and b["id"] + SAMEFS_SUFFIX not in bad_ids
+            and any(s["chk"] for s in b["steps"])]
     if good:
         b = good[0]
         rws = rows_of(b, observed[b["id"]])
@@ -571,11 +663,13 @@ def _run(c):
     c.exhaustive = (skipped == 0 and not drift and not c.violations)
     c.rule = ("S->I: TLC enumerates every behaviour of Setup.tla with N commands from all six initial states "
               "(quick: every 3-command sequence extended by one seeded 4th command; thorough: every 4-command sequence plus "
-              "a seeded sample of 5-command ones); each is run on the real release binary in an overlay mount namespace and "
+              "a seeded sample of 5-command ones); each is run on the real release binary in an overlay mount namespace, once "
+              "per file-system layout (tool folder on another mount than /etc and /usr; tool folder and all four system "
+              "directories on one mount, link(2) between them proven to succeed), and "
               "the projected state (4 system locations, backup, package, rest digest, exit code, systemctl calls with "
               "snapshots) is compared with the model after every command; every kind of divergence is decided by the "
               "property-level trace spec SetupTrace.tla (re-executed, traced with strace). I->S: all observations are "
-              "validated by TLC against SetupTrace.tla. distinct = distinct (initial state, command sequence) pairs executed")
+              "validated by TLC against SetupTrace.tla. distinct = distinct (initial state, command sequence, layout) triples executed")
 
 
 def replay(c, path):
@@ -594,7 +688,8 @@ def _replay(c, path):
     setup_bin = build_setup(release=True)
     spelling, table = probe_restore_spelling(c, setup_bin)
     judge = Judge(c, setup_bin, {"restoreF": spelling} if spelling else {})
-    b = {"id": "replay", "init": case["init"], "cmds": case["cmds"], "steps": case.get("expected") or []}
+    b = {"id": "replay", "init": case["init"], "cmds": case["cmds"], "steps": case.get("expected") or [],
+         "layout": case.get("layout", "separate")}
     ok, why, obs = judge.decide(b, "replay")
     c.count(json.dumps(b["cmds"]))
     if ok:
